@@ -188,6 +188,39 @@ def subscribe_shape():
                          ['self._subscriptions.setdefault(eventname,set()).add(conn)'])
 
 
+def subscription_entries_never_removed():
+    """nothing in the Dispatcher class removes or rebinds an entry of self._subscriptions: no `del`, no pop / popitem /
+    clear / update / __delitem__ / __setitem__ on it, no item assignment, the attribute is assigned once
+    (`self._subscriptions = {}` in __init__); the only operation that binds a new entry is the setdefault of subscribe"""
+    cls = _disp()
+
+    def is_tbl(node):
+        return is_self_attr(node, '_subscriptions')
+
+    ok = True
+    for d in walk_type(cls, ast.Delete):
+        for tg in d.targets:
+            if any(is_tbl(n) for n in ast.walk(tg)):
+                ok = False
+    for c in walk_type(cls, ast.Call):
+        f = c.func
+        if isinstance(f, ast.Attribute) and is_tbl(f.value) and f.attr not in ('get', 'items', 'setdefault', 'keys', 'values'):
+            ok = False
+    assigns = []
+    for a in walk_type(cls, ast.Assign) + walk_type(cls, ast.AugAssign) + walk_type(cls, ast.AnnAssign):
+        targets = a.targets if isinstance(a, ast.Assign) else [a.target]
+        for tg in targets:
+            for n in ast.walk(tg):
+                if is_tbl(n):
+                    assigns.append(a)
+    ok = ok and len(assigns) == 1 and _norm(assigns[0]) == 'self._subscriptions={}' \
+        and assigns[0] in walk_type(find_func(cls, '__init__'), ast.Assign)
+    sd = [c for c in walk_type(cls, ast.Call)
+          if isinstance(c.func, ast.Attribute) and is_tbl(c.func.value) and c.func.attr == 'setdefault']
+    ok = ok and len(sd) == 1 and sd[0] in walk_type(_method('subscribe'), ast.Call)
+    return 'bool', cbool(ok)
+
+
 def unsubscribe_shape():
     """module event: discard below f'{eventname}:' too; then discard from the event itself"""
     f = _method('unsubscribe')
@@ -255,7 +288,7 @@ def handler_replies_after_dispatch():
 FACTS = [EVENTREPLY, ENABLEEVENTSREPLY, DISABLEEVENTSREPLY, IDENTREQUEST, request_under_dispatcher_lock,
          announce_under_update_lock, announce_update_shape, broadcast_listeners_shape,
          activate_registers_before_snapshot, snapshot_under_module_lock, broadcast_takes_no_dispatcher_lock,
-         subscribe_shape, unsubscribe_shape, deactivate_shape, reset_shape, handler_replies_after_dispatch]
+         subscribe_shape, subscription_entries_never_removed, unsubscribe_shape, deactivate_shape, reset_shape, handler_replies_after_dispatch]
 
 FINGERPRINTS = {
     'make_update': lambda: find_func(parse(FD), 'make_update'),
